@@ -100,6 +100,30 @@ theorem C11_is_hermitian {α ρ : Type} [CommRing α] [Mul ρ] [LT ρ] [Decidabl
     (a.plusHc = false → ((a.dagger hc cj).m.denoteSites n) = Sym.dagger hc cj (a.m.denoteSites n)) :=
   isHermitian_spec gram cj hc absSq epsSq a mr n
 
+/-- **`MPO.distance`** (with the window fixed once — pending_fixes/C11-distance-infinite-same-window.diff):
+whenever it answers, the answer is `‖A‖² − 2·Re<A|B> + ‖B‖²` for the operators the two MPOs stand for on ONE
+window of `n` sites, the default window of `self.overlap(other)` — the squared Frobenius distance `‖A − B‖²`
+(`C11_distance_expand`). -/
+theorem C11_distance_window {α ρ : Type} [CommRing α] [Mul ρ] [Neg ρ] [LT ρ] [DecidableLT ρ]
+    (gram : String → String → α) (cj : α →+* α) (hc : String → String) (hcj : ∀ x, cj (cj x) = x)
+    (hhc : ∀ x, hc (hc x) = x) (hgram : ∀ x y, gram (hc x) (hc y) = cj (gram x y))
+    (re : α → ρ) (tol : ρ) (a b : MPOX α) (numSites : Option Nat) (n : Nat) (d : α)
+    (hn : MPOX.overlapNumSites a b numSites = some n)
+    (h : MPOX.distance gram cj hc re tol a b numSites = some d) :
+    let A := a.window hc cj n
+    let B := b.window hc cj n
+    d = MPOM.frob gram cj A A - (MPOM.frob gram cj A B + cj (MPOM.frob gram cj A B)) + MPOM.frob gram cj B B :=
+  distance_spec gram cj hc hcj hhc hgram re tol a b numSites n d hn h
+
+/-- the combination computed by `distance` is literally `<A − B|A − B>` (`A − B` = `A ++ (-1)·B` as a formal
+sum) when the local trace form is Hermitian (`gram y x = cj (gram x y)`); then also `<B|A> = conj <A|B>`. -/
+theorem C11_distance_expand {α : Type} [CommRing α] (gram : String → String → α) (cj : α →+* α)
+    (hcj : ∀ x, cj (cj x) = x) (hsym : ∀ x y, gram y x = cj (gram x y)) (A B : Sym α) :
+    MPOM.frob gram cj (A ++ Sym.smul (-1) B) (A ++ Sym.smul (-1) B)
+      = MPOM.frob gram cj A A - (MPOM.frob gram cj A B + cj (MPOM.frob gram cj A B)) + MPOM.frob gram cj B B ∧
+    MPOM.frob gram cj B A = cj (MPOM.frob gram cj A B) :=
+  distance_expand gram cj hcj hsym A B
+
 /-! ## non-vacuity: concrete instances run through the executable model -/
 
 section examples
@@ -215,6 +239,36 @@ example : (true : Bool) = true :=
       (by decide +kernel : (xdOne 2 1 (.fin 1) false).window xdHc (RingHom.id Int) 3
         = (xdTwo 2 1 (.fin 1) false).window xdHc (RingHom.id Int) 3))
     rfl (by decide +kernel)
+
+/-- `distance` of two infinite MPOs whose `max_range` attributes differ (the default windows of `<A|A>`,
+`<B|B>` alone would be 3 and 8 sites): one window of `max(1 + 2·1, 2 + 2·3) = 8` sites, the `Z` coefficients
+differ by 1 on each of them -/
+example : overlapNumSites (xdOne 2 1 (.fin 1) false) (xdOne 2 1 (.fin 1) false) none = some 3 ∧
+    overlapNumSites (xdTwo 3 1 (.fin 3) false) (xdTwo 3 1 (.fin 3) false) none = some 8 ∧
+    overlapNumSites (xdOne 2 1 (.fin 1) false) (xdTwo 3 1 (.fin 3) false) none = some 8 := by decide
+example : distance xdGram id xdHc (fun x : Int => x) (0 : Int) (xdOne 2 1 (.fin 1) false)
+    (xdTwo 3 1 (.fin 3) false) none = some 8 := by decide +kernel
+example : distance xdGram id xdHc (fun x : Int => x) (0 : Int) (xdOne 2 1 (.fin 1) false)
+    (xdTwo 2 1 (.fin 3) false) none = some 0 := by decide +kernel
+example : distance xdGram id xdHc (fun x : Int => x) (0 : Int) (xdOne 2 1 (.fin 1) false) (xdFin 2 1) none
+    = none := by decide
+
+/-- the hypotheses of `C11_distance_window` are met by this run -/
+example : (8 : Int) =
+    MPOM.frob xdGram (RingHom.id Int) ((xdOne 2 1 (.fin 1) false).window xdHc (RingHom.id Int) 8)
+        ((xdOne 2 1 (.fin 1) false).window xdHc (RingHom.id Int) 8)
+      - (MPOM.frob xdGram (RingHom.id Int) ((xdOne 2 1 (.fin 1) false).window xdHc (RingHom.id Int) 8)
+          ((xdTwo 3 1 (.fin 3) false).window xdHc (RingHom.id Int) 8)
+        + RingHom.id Int (MPOM.frob xdGram (RingHom.id Int) ((xdOne 2 1 (.fin 1) false).window xdHc (RingHom.id Int) 8)
+          ((xdTwo 3 1 (.fin 3) false).window xdHc (RingHom.id Int) 8)))
+      + MPOM.frob xdGram (RingHom.id Int) ((xdTwo 3 1 (.fin 3) false).window xdHc (RingHom.id Int) 8)
+          ((xdTwo 3 1 (.fin 3) false).window xdHc (RingHom.id Int) 8) :=
+  C11_distance_window xdGram (RingHom.id Int) xdHc (fun _ => rfl) xdHc_invol xdGram_hc (fun x : Int => x) (0 : Int)
+    (xdOne 2 1 (.fin 1) false) (xdTwo 3 1 (.fin 3) false) none 8 8 (by decide) (by decide +kernel)
+
+/-- `C11_distance_expand` on a concrete pair: `‖(2Z + P) − (3Z + P)‖² = 1` -/
+example : MPOM.frob xdGram id (([(["Z"], 2), (["P"], 1)] : Sym Int) ++ Sym.smul (-1) [(["Z"], 3), (["P"], 1)])
+    (([(["Z"], 2), (["P"], 1)] : Sym Int) ++ Sym.smul (-1) [(["Z"], 3), (["P"], 1)]) = 1 := by decide +kernel
 
 /-- a flagged MPO `P_i M_{i+1} + h.c.`: `‖H + H†‖² = 4` on 3 sites; against the unflagged `P_i M_{i+1}`: `2` -/
 example : overlap xdGram id xdHc (xdOne 0 1 (.fin 1) true) (xdTwo 0 1 (.fin 1) true) (some 3) = some 4 := by
